@@ -18,9 +18,9 @@
 //	      A<i> (Handle.WriteWithAssociatedData), N<i> (Handle.WriteWithNoSecrets), e.g. C1,E2,A2,N3
 //	Observation: W|c:<ok|err>,..|o:<ok:hex|err>;...  (bytes the shared binary writer emitted per write)
 //
-// Observation ("U" when the keyset holds one of the five key types whose
-// parser the shared model does not transcribe: PRF-based deriver, the three
-// ML-DSA private kinds and the composite ML-DSA public key):
+// Observation ("U" when the keyset holds one of the three key types whose
+// parser the shared model does not transcribe: PRF-based deriver and the two
+// composite ML-DSA kinds):
 //
 //	c:<ok|err>            insecurecleartextkeyset.Read
 //	n: rn: rj:            keyset.NewHandleWithNoSecrets, ReadWithNoSecrets (binary, JSON)
@@ -71,9 +71,8 @@ const tp = c14.TypePrefix
 // unmodelled5: the registered key types whose parser model/Untrusted.v does
 // not transcribe (unmodelled_urls of coq/model/UntrustedConsts.v); every
 // other registered type (37) and every unregistered URL is in C13's scope.
-var unmodelled5 = map[string]bool{
-	tp + "PrfBasedDeriverKey": true, tp + "JwtMlDsaPrivateKey": true, tp + "MlDsaPrivateKey": true,
-	tp + "CompositeMlDsaPublicKey": true, tp + "CompositeMlDsaPrivateKey": true,
+var unmodelled5 = map[string]bool{ // three since the ML-DSA / JWT ML-DSA private-key parsers are transcribed
+	tp + "PrfBasedDeriverKey": true, tp + "CompositeMlDsaPublicKey": true, tp + "CompositeMlDsaPrivateKey": true,
 }
 
 // inScope: a registered key type whose parser the model transcribes.
@@ -972,7 +971,7 @@ func c13Gen(r *hx.Rng, n int, tier string) []string {
 			if r.Chance(10) && k.Prefix == 1 {
 				k.Prefix = hx.PickS(r, []uint64{2, 4}) // LEGACY / CRUNCHY
 			}
-			if r.Chance(35) && strings.HasSuffix(k.URL, "MlDsaPublicKey") && !strings.Contains(k.URL, "Jwt") && !strings.Contains(k.URL, "Composite") {
+			if r.Chance(35) && (strings.HasSuffix(k.URL, ".MlDsaPublicKey") || strings.HasSuffix(k.URL, ".MlDsaPrivateKey")) {
 				k.Prefix = 5 // WITH_ID_REQUIREMENT: ML-DSA variant NoPrefixWithPrehashID (readable since /repo 4b80d2c)
 			}
 			if r.Chance(2) {
